@@ -598,6 +598,47 @@ def canaries(chk, prog):
             chk.canary(name, False, "crashed: %s: %s" % (type(e).__name__, e))
 
 
+
+def pole_exact(chk, prog):
+    """POLE-EXACT: `magnetic_field` divides the east component by cos(phi') and has a special arm for cos(phi') == 0 whose recursion (Bp) is NOT the limit of the
+    synthesis (it is a mis-port of geomag's polar case; on today's tree it is unreachable, because cos of a float latitude is never exactly 0, and the generic arm
+    is what the SYNTHESIS obligations verify).  The arm may therefore be guarded by the exact test only: any tolerance form (isclose / allclose / abs(..) < eps)
+    makes it reachable at latitude +-90, where it answers with an east component off by 1e2..1e4 nT."""
+    f = prog.func("ahrs/utils/wmm.py::WMM.magnetic_field")
+    chk.touch(f)
+    n = 0
+    # flags that hold a test on cos_lat (at_pole = <test>): their definitions are judged where they are used
+    flag_defs = {}
+    for s_ in ast.walk(f.node):
+        if isinstance(s_, ast.Assign) and len(s_.targets) == 1 and isinstance(s_.targets[0], ast.Name) and "cos_lat" in ast.unparse(s_.value) \
+                and isinstance(s_.value, (ast.Compare, ast.Call, ast.BoolOp, ast.UnaryOp)) and (
+                    isinstance(s_.value, (ast.Compare, ast.BoolOp)) or ast.unparse(s_.value.func if isinstance(s_.value, ast.Call) else s_.value.operand).split(".")[-1] in ("isclose", "allclose", "abs", "cos_lat")):
+            flag_defs[s_.targets[0].id] = s_.value
+    for node in ast.walk(f.node):
+        test = node.test if isinstance(node, (ast.If, ast.IfExp, ast.While)) else None
+        if test is None:
+            continue
+        exprs = [test] + [flag_defs[x.id] for x in ast.walk(test) if isinstance(x, ast.Name) and x.id in flag_defs]
+        if not any("cos_lat" in ast.unparse(e) for e in exprs):
+            continue
+        n += 1
+        site = "%s::%s" % (f.ref, ast.unparse(test)[:50])
+        leaves = [x for e in exprs for x in ast.walk(e) if isinstance(x, (ast.Compare, ast.Call)) and "cos_lat" in ast.unparse(x)]
+        bad = [x for x in leaves if (isinstance(x, ast.Call) and ast.unparse(x.func).split(".")[-1] in ("isclose", "allclose"))
+               or (isinstance(x, ast.Compare) and not (len(x.ops) == 1 and isinstance(x.ops[0], (ast.Eq, ast.NotEq)) and isinstance(x.comparators[0], ast.Constant)
+                                                        and x.comparators[0].value == 0 and isinstance(x.left, ast.Name)))]
+        if bad:
+            why = "the polar arm is selected by `%s`, a tolerance test: at latitude +-90 (cos(phi') ~ 6e-17) the arm's own recursion replaces the synthesis, and that " \
+                  "recursion is not its limit" % ast.unparse(bad[0])[:60]
+            chk.record("POLE-EXACT", site, "the polar special case is taken for cos(phi') == 0 exactly", verdict="VIOLATION", detail=why)
+            chk.finding("POLE-EXACT", f.module.rel, f.qname, "tolerance-guarded polar arm: %s" % ast.unparse(test)[:50], why, line=node.lineno)
+        else:
+            chk.record("POLE-EXACT", site, "the polar special case is guarded by the exact test cos_lat == 0 (never true for a float latitude: the verified generic arm answers)")
+    if n < 2:
+        chk.error("POLE-EXACT: %d tests on cos_lat in WMM.magnetic_field, 2 confirmed by hand" % n)
+    chk.count("POLE-EXACT", 0)
+
+
 def run(chk, prog, tier):
     # the constructor route evaluates the same method with every argument forwarded, and the derived elements follow from the stored components (rules of C15)
     from props.c15 import ctor_route as _ctor_route, elements as _elements
@@ -610,6 +651,7 @@ def run(chk, prog, tier):
     index_rule(chk, prog)
     bounds_rule(chk, prog)
     dt_rule(chk, prog)
+    pole_exact(chk, prog)
     synthesis(chk, prog, degree=3)
     if tier == "thorough":
         synthesis(chk, prog, degree=4)      # one more degree of the recursions (k[m, n], the Legendre functions and their derivatives) against closed forms
